@@ -220,7 +220,10 @@ def body_wrapup(I, case):
     mods['FX'] = {'fixed': True, 'rectangles': [[fx, fy, 1.0, 2.0]]}
     tx, ty = I.real('tx', 0, 9), I.real('ty', 0, 9)
     mods['PIN'] = {'terminal': True, 'fixed': True, 'center': [tx, ty]}   # a fixed I/O pin
-    tree = {'Modules': mods, 'Nets': [['S0', 'S1', 'HM'], ['S2', 'FX', 2.0], ['S1', 'S2'], ['PIN', 'S0']]}
+    w3 = I.real('w3', 0.1, 10)
+    tree = {'Modules': mods, 'Nets': [['S0', 'S1', 'HM', w3], ['S2', 'FX', 2.0], ['S1', 'S2'], ['PIN', 'S0'], ['S0', 'S1', 'S2', 'HM']]}
+    # the nets as the document states them (the placer's own constructor must not change them either)
+    nets_doc = [(['S0', 'S1', 'HM'], w3), (['S2', 'FX'], 2.0), (['S1', 'S2'], 1), (['PIN', 'S0'], 1), (['S0', 'S1', 'S2', 'HM'], 1)]
     net = SP.Spectral(tree)
     names = [m.name for m in net.modules]
     before = {m.name: dict(area=m.area(), rects=[(r.center.x, r.center.y, r.shape.w, r.shape.h) for r in m.rectangles],
@@ -274,6 +277,6 @@ def body_wrapup(I, case):
         rad = symx.sym_sqrt(b['area'] / SP.math.pi) if I.mode == 'symbolic' else math.sqrt(b['area'] / math.pi)
         prove('movable-disc-inside-die', And(cx - rad >= 0, cx + rad <= W, cy - rad >= 0, cy + rad <= H) if I.mode == 'symbolic'
                 else (cx - rad >= -1e-9 and cx + rad <= W + 1e-9 and cy - rad >= -1e-9 and cy + rad <= H + 1e-9), side=True)
-    prove('nets-unchanged', [([m.name for m in e.modules], e.weight) == nb for e, nb in zip(net.edges, nets_before)] ==
-            [True] * len(nets_before) and len(net.edges) == len(nets_before))
+    prove('nets-unchanged', len(net.edges) == len(nets_doc) and And(*[And([m.name for m in e.modules] == nd[0], Eq(e.weight, nd[1]))
+                                                                        for e, nd in zip(net.edges, nets_doc)]))
     prove('modules-unchanged', [m.name for m in net.modules] == names)
